@@ -64,6 +64,9 @@ static void check_intervals(const char *what)
 {
 	int i, j, t, u;
 
+	vrt_sample("%s: reader loads r0..r5 = %lu %lu %lu %lu %lu %lu; first section of T1 [%lu,%lu), first synchronize_rcu of T0 [%lu,%lu]", what,
+		   vrt_note_get(0), vrt_note_get(1), vrt_note_get(2), vrt_note_get(3), vrt_note_get(4), vrt_note_get(5),
+		   vrt_note_get(N_SECB(1, 0)), vrt_note_get(N_SECE(1, 0)), vrt_note_get(N_GPC(0, 0)), vrt_note_get(N_GPR(0, 0)));
 	for (t = 0; t < 8; t++)
 		for (i = 0; i < (int)vrt_note_get(N_NGP(t)); i++)
 			for (u = 0; u < 8; u++)
